@@ -26,10 +26,7 @@ impl DalekPublicKey {
     #[verifier::external_body]
     pub fn verify(&self, msg: &Vec<u8>, sig: &DalekSignature) -> (r: Result<(), Ed25519Error>)
         ensures (r is Ok) == ed25519_ok(*self, msg@, *sig) { unimplemented!() }
-    #[verifier::external_body]
-    pub fn to_bytes(&self) -> (r: [u8; 32]) ensures r@ == spec_dalek_bytes(*self) { unimplemented!() }
 }
-pub uninterp spec fn spec_dalek_bytes(pk: DalekPublicKey) -> Seq<u8>;
 // payment proof message: amount (8 bytes BE) ++ kernel excess (33) ++ sender address (32)
 pub open spec fn spec_proof_msg(amount: u64, excess: Commitment, sender: DalekPublicKey) -> Seq<u8> {
     spec_be64(amount) + excess.0@ + spec_dalek_bytes(sender)
